@@ -19,6 +19,16 @@ from pv.values import (VMap, V, VInt, VBool, VStr, VNONE, VNoneT, VTuple, VRef, 
 EXTERNAL = {'time.time': 'int'}
 
 
+class ClassSet:
+    """One of a finite set of classes (which one is not tracked)."""
+
+    def __init__(self, cs):
+        self.classes = list(dict.fromkeys(cs))
+
+    def __repr__(self):
+        return 'ClassSet(%s)' % ', '.join(c.__name__ for c in self.classes)
+
+
 class Outcome:
     __slots__ = ('kind', 'st', 'val', 'exc', 'site')
 
@@ -125,12 +135,27 @@ class Verifier(Engine):
                 return self.call_contract(st, fv.qual, [fv.recv] + args, kwargs)
             if k == 'closure':
                 return self.call_closure(st, fv, args, kwargs)
+            if k == 'constdict_get':
+                # <constant dict>.get(key, default) with a symbolic key: one of the values or the default -- which one is
+                # left open (sound over-approximation); only class-valued dicts are supported
+                import inspect
+                vals = list(fv.d.values())
+                if len(args) > 1:
+                    d = args[1]
+                    if not isinstance(d, VPy):
+                        raise OutOfSubset('dict.get default of kind %s' % kind_of(d))
+                    vals.append(d.obj)
+                if not vals or not all(inspect.isclass(v) for v in vals):
+                    raise OutOfSubset('dict.get on a constant dict whose values are not classes')
+                return VPy(ClassSet(vals))
             if k == 'lambda' and st.spec:
                 return self.call_lambda(st, fv, args)
             raise OutOfSubset('call of %s' % k)
         if isinstance(fv, VPy):
             import inspect
             o = fv.obj
+            if isinstance(o, ClassSet):
+                return self.construct_any(st, o, args, kwargs)
             if inspect.isclass(o):
                 return self.construct(st, o, args, kwargs)
             ext = '%s.%s' % (getattr(o, '__module__', ''), getattr(o, '__name__', ''))
@@ -278,6 +303,20 @@ class Verifier(Engine):
         self.call_contract(st, q, [ref] + args, kwargs)
         return ref
 
+    def construct_any(self, st, cs, args, kwargs):
+        """Construction of an instance of one of several classes that share their __init__ (class-table check)."""
+        inits = {classes.qualname(c.__name__, '__init__') for c in cs.classes}
+        if len(inits) != 1 or None in inits:
+            raise OutOfSubset('classes %r do not share one __init__' % sorted(c.__name__ for c in cs.classes))
+        common = [k for k in cs.classes[0].__mro__ if all(issubclass(c, k) for c in cs.classes)][0]
+        r = st.alloc(common.__name__.lower())
+        ref = VRef(r, common.__name__)
+        for k in classes.table().values():
+            if all(issubclass(c, k) for c in cs.classes):
+                st.pc.append(z3.Function('$isinst_' + k.__name__, I, B)(r))
+        self.call_contract(st, inits.pop(), [ref] + args, kwargs)
+        return ref
+
     # ---- contract call: assert pre, havoc, assume post
     def bind_args(self, ctr, fn_node, args, kwargs, st):
         """Map positional/keyword arguments onto the parameter names of the real def."""
@@ -391,6 +430,31 @@ class Verifier(Engine):
                 for f in s2.pc[len(st.pc):]:
                     st.assume(f)
                 return v
+        # list objects the callee may change: every other list keeps its length and elements
+        if ctr.lists is not None:
+            refs = []
+            for ex in ctr.lists:
+                v, _ = self.spec_value(pre_state, ex, ctr)
+                refs.append(v.t)
+            l = z3.Int(fresh_name('l'))
+            for f in ('$len', '$elR', '$elS'):
+                old = st.heap.get(f)
+                if old is None:
+                    old = self.init_heap.get(f)
+                if old is None:
+                    continue
+                new = z3.Const(fresh_name('H_' + f), old.sort())
+                st.heap[f] = new
+                keep = z3.And([l != r for r in refs]) if refs else z3.BoolVal(True)
+                st.pc.append(smt.forall([l], z3.Implies(keep, z3.Select(new, l) == z3.Select(old, l)), patterns=[z3.Select(new, l)]))
+                if f == '$len':
+                    st.pc.append(smt.forall([l], z3.Select(new, l) >= 0, patterns=[z3.Select(new, l)]))
+            # the callee may allocate
+            olda = st.arr('$alloc', z3.ArraySort(I, B))
+            newa = z3.Const(fresh_name('H_alloc'), olda.sort())
+            o_ = z3.Int(fresh_name('o'))
+            st.pc.append(z3.ForAll([o_], z3.Implies(z3.Select(olda, o_), z3.Select(newa, o_))))
+            st.heap['$alloc'] = newa
         # havoc what the callee may modify
         for fld in ctr.modifies:
             if '.' in fld and not fld.startswith('$'):
@@ -402,7 +466,7 @@ class Verifier(Engine):
                 kind = self.field_kind(tgt.cls, fn_)
                 if kind is None:
                     raise BindingError('modifies %s: unknown field' % fld)
-                self.write_field(st, tgt.t, fn_, kind, fresh(kind, 'mod_' + fn_))
+                self.write_field(st, tgt.t, self.storage(tgt.cls, fn_), kind, fresh(kind, 'mod_' + fn_))
             else:
                 self.havoc_field(st, fld)
         res = fresh(ctr.returns, 'r_' + qual.rsplit('.', 1)[-1]) if ctr.returns != 'none' else VNONE
@@ -455,7 +519,7 @@ class Verifier(Engine):
             st.heap[n] = z3.Const(fresh_name('H_' + n), old.sort())
             if n == '$len':
                 l = z3.Int(fresh_name('l'))
-                st.pc.append(z3.ForAll([l], z3.Select(st.heap[n], l) >= 0, patterns=[z3.Select(st.heap[n], l)]))
+                st.pc.append(smt.forall([l], z3.Select(st.heap[n], l) >= 0, patterns=[z3.Select(st.heap[n], l)]))
         self.havocked.append(fld)
 
     def call_inline(self, st, qual, ctr, args, kwargs, setter):
